@@ -140,10 +140,15 @@ def parse_listing(lines):
 
 def tok_val(tok):
     """'d12' -> ('d', 12); 'xab' -> ('x', bytes)"""
-    if tok[0] in 'dD':
-        return 'd', int(tok[1:])
-    if tok[0] in 'xX':
-        return 'x', bytes.fromhex(tok[1:])
+    # a token that is not a well-formed value names no operand at all: that
+    # is a finding about the listing ('?'), not a failure of this parser
+    try:
+        if tok[0] in 'dD':
+            return 'd', int(tok[1:])
+        if tok[0] in 'xX':
+            return 'x', bytes.fromhex(tok[1:])
+    except ValueError:
+        pass
     return '?', tok
 
 
